@@ -12,13 +12,16 @@ THEOREMS = ['sort_result', 'sort_permutation', 'sort_sorted', 'sort_stable', 'na
             'str_prefix_before_extension', 'sort_leaves_length', 'sortcols_ids', 'sortcols_rows', 'sortcols_columns',
             'sortcols_columns_nonempty', 'sortcols_columns_empty', 'enumv_NoDup', 'sortcols_shape_partial',
             'sort_spec_preserves_lengths_partial', 'no_cross_list_movement', 'sort_spec_no_cross_list_movement',
-            'argsort_realises_sort', 'argsort_positions', 'argsort_realises_sort_cols']
+            'argsort_realises_sort', 'argsort_positions', 'argsort_realises_sort_cols',
+            # layout-level model of sort along the NON-innermost axes (Ops_SortAxes.v) = specification
+            'sortcols_total_on_handled_types', 'sort_axes_groups_refine_sortcols', 'sort_axes_refines_spec_partial', 'sort_axes_modelled_on_fragment', 'sort_axes_refines_spec_on_fragment', 'sort_axes_never_out_of_bounds', 'layout_independent_sort_axes', 'layout_independent_sort_axes_on_fragment', 'sort_all_refines_spec_partial', 'sort_all_modelled_on_fragment', 'sort_all_refines_spec_on_fragment']
 RULE = ('value-first random layouts (numeric incl. NaN/inf floats, bool, strings; options at leaf and list level) x '
         '(sort | argsort) x axis x ascending x stable; in that stream argsort is run with stable=True; a second stream of '
         'long lists (17-70 numbers with many NaN / equal keys) runs sort and argsort stable and UNSTABLE, the unstable '
         'argsort judged by: positions are a permutation of each list and carrying by them gives the sorted list. non-trivial = some list along the axis has >= 2 elements; distinct by case text')
-ASSUMPTIONS = ['the layout-level model covers the innermost axis; for other axes the implementation is compared with the '
-               'value-level specification only (verdict agree ... nomodel, counted)',
+ASSUMPTIONS = ['the layout-level model covers sort along every axis (innermost: sort_model; others: sort_axes_model, lists over '
+               'numbers with option nodes on the leaves) and argsort along the innermost axis; elsewhere the implementation is '
+               'compared with the value-level specification only (verdict agree ... nomodel, counted)',
                'records and unions are outside the specification (the library refuses or treats fields separately)']
 LEAVES = ['int64'] * 3 + ['float64'] * 3 + ['bool', 'int8', 'uint8', 'int32', 'uint16', 'float32', 'uint64']
 
